@@ -8,6 +8,8 @@
 * PairRendering -- where Link.__str__ renders one (key, value) pair and under which
                   conditions the value-less form is chosen (C20.i).
 * unused_member -- is a returned value known not to be a key of a table (C20.c).
+* LinkFlow     -- abstract interpretation of link-format structures: does a function hand on
+                  every parsed link with its target and every attribute pair (C20.k).
 
 Nothing here looks at names of locals or helpers, at statement order or at source text.
 """
@@ -2164,3 +2166,1284 @@ def ctor_attribute(scope, call, key, positional=None, pairs_param="attr_pairs"):
         for a in ap:
             vals += _pair_values(scope, a, key)
     return vals, opaque
+
+
+# ---------------------------------------------------------------------------
+# C20.k: LinkFlow -- abstract interpretation of link-format structures
+#
+# Decides whether a function hands on *every* link of a parsed link-format document, each with its target and
+# *every* attribute pair (repeated attribute names included), by evaluating the code over abstract values:
+#
+#   Obj(cls, attrs)   an instance of a class of the program with the abstract values of its attributes
+#   Seq(elem, src)    a sequence with one element (of abstract value elem) per element of `src`
+#                     (("links",) all links of the document / ("pairs",) all attribute pairs of the current
+#                     link), in order; `loss` = (reason, node, fi) when elements may be missing
+#   Tup(items)        a list / tuple display of known length ([key, value] pair, [href, pairs] of to_py())
+#   Atom(kind)        the target / an attribute name / an attribute value of the current link / pair
+#   Map               a mapping keyed by the attribute name (dict(pairs), {k: v for k, v in pairs}, **kwargs);
+#                     a mapping has one entry per *distinct* name, so everything read back from it is lossy
+#   NONE, OPAQUE      None / a value that has nothing to do with the links (the text, a flag)
+#   Unknown           a value that involves the links in a way this evaluator does not interpret (-> refusal)
+#
+# Constructors and methods (Link(...), LinkHeader(...), .to_py()) are not tabulated: their bodies are evaluated
+# by the same interpreter, so `Link(href, pairs)`, `Link(*item)`, `Link(href, **mapping)`, `LinkFormat(to_py())`
+# mean whatever the classes of the analysed tree make of them.
+
+
+class _LV:
+    tracked = True
+
+
+class _Plain(_LV):
+    tracked = False
+
+    def __init__(self, name):
+        self.name = name
+
+    def __repr__(self):
+        return self.name
+
+
+OPAQUE = _Plain("OPAQUE")
+NONE = _Plain("NONE")
+
+
+class Unknown(_LV):
+    def __init__(self, reason, node=None, fi=None, origin=None):
+        self.reason, self.node, self.fi = reason, node, fi
+        self.origin = origin  # the tracked container an uninterpreted part was taken from (`seq[0]`)
+
+    def __repr__(self):
+        return "Unknown(%s)" % self.reason
+
+
+class Atom(_LV):
+    def __init__(self, kind):
+        self.kind = kind
+
+    def __repr__(self):
+        return "<%s>" % self.kind
+
+
+class Tup(_LV):
+    def __init__(self, items):
+        self.items = list(items)
+
+    def __repr__(self):
+        return "Tup%r" % (self.items,)
+
+
+class Seq(_LV):
+    def __init__(self, elem=None, src=None, loss=None):
+        self.elem, self.src, self.loss = elem, src, loss
+
+    @property
+    def empty(self):
+        return self.elem is None and self.src is None
+
+    def __repr__(self):
+        return "Seq(%r over %s%s)" % (self.elem, self.src, ", LOSSY: %s" % self.loss[0] if self.loss else "")
+
+
+class Map(_LV):
+    def __init__(self, loss=None, empty=False):
+        self.loss, self.empty = loss, empty
+
+    def __repr__(self):
+        return "Map(%s)" % ("empty" if self.empty else self.loss[0] if self.loss else "?")
+
+
+class Obj(_LV):
+    def __init__(self, cls, attrs=None):
+        self.cls, self.attrs = cls, dict(attrs or {})
+
+    def __repr__(self):
+        return "Obj(%s, %r)" % (self.cls.split(".")[-1], self.attrs)
+
+
+class Fn(_LV):
+    tracked = False
+
+    def __init__(self, fi, env):
+        self.fi, self.env = fi, env
+
+
+def _skey(v, depth=0):
+    """structural identity of an abstract value (for joining the environments of two branches)"""
+    if depth > 8:
+        return ("deep",)
+    if isinstance(v, _Plain):
+        return (v.name,)
+    if isinstance(v, Atom):
+        return ("atom", v.kind)
+    if isinstance(v, Tup):
+        return ("tup",) + tuple(_skey(x, depth + 1) for x in v.items)
+    if isinstance(v, Seq):
+        return ("seq", _skey(v.elem, depth + 1) if v.elem is not None else None, v.src, id(v.loss[1]) if v.loss else None)
+    if isinstance(v, Map):
+        return ("map", v.empty, id(v.loss[1]) if v.loss else None)
+    if isinstance(v, Obj):
+        return ("obj", v.cls) + tuple((k, _skey(x, depth + 1)) for k, x in sorted(v.attrs.items()))
+    if isinstance(v, Fn):
+        return ("fn", id(v.fi.node))
+    return ("unknown", id(v))
+
+
+def _clone(v, memo):
+    """copy of the mutable structure of an abstract value (loss markers, atoms and Unknowns are shared)"""
+    if not isinstance(v, (Obj, Seq, Tup, Map)):
+        return v
+    if id(v) in memo:
+        return memo[id(v)]
+    c = object.__new__(type(v))
+    memo[id(v)] = c
+    for k, x in v.__dict__.items():
+        if isinstance(x, list):
+            c.__dict__[k] = [_clone(y, memo) for y in x]
+        elif isinstance(x, dict):
+            c.__dict__[k] = {a: _clone(y, memo) for a, y in x.items()}
+        else:
+            c.__dict__[k] = _clone(x, memo)
+    return c
+
+
+class _NoEval(Exception):
+    pass
+
+
+class _Return(Exception):
+    pass
+
+
+_LF_BUILTINS = {"list", "tuple", "dict", "iter", "set", "frozenset", "sorted", "reversed", "map", "filter", "zip", "enumerate", "len",
+                "isinstance", "str", "repr", "bool", "any", "all", "print", "type", "id", "hasattr", "getattr"}
+_LF_REMOVERS = {"pop", "remove", "clear", "popitem", "discard"}
+_LF_MUTATORS = {"append", "extend", "insert", "sort", "reverse", "update", "setdefault", "add"} | _LF_REMOVERS
+
+
+class LinkFlow:
+    SRC = "aiocoap.util.vendored.link_header.parse"
+    HDR = "aiocoap.util.vendored.link_header.LinkHeader"
+    LNK = "aiocoap.util.vendored.link_header.Link"
+    MAXDEPTH = 6
+
+    def __init__(self, prog):
+        self.prog = prog
+        self.fi = None
+        self.depth = 0
+        self.outer = 0  # loop nesting of the callers
+        self.loops = []  # [(Seq iterated, len(self.conds) at entry, unsupported control flow in the body)]
+        self.conds = []  # [(test, polarity, env)] branch conditions entered since the function / loop began
+
+    def _depth(self):
+        return self.outer + len(self.loops)
+
+    def _empty(self):
+        """a new empty list, stamped with the loop nesting it is created at (accumulators)"""
+        s = Seq()
+        s._born = self._depth()
+        return s
+
+    # ---- the document as the vendored parser hands it over ----------------
+    def pairs(self):
+        return Seq(Tup([Atom("key"), Atom("val")]), ("pairs",))
+
+    def link(self, cls=None):
+        return Obj(cls or self.LNK, {"href": Atom("href"), "attr_pairs": self.pairs()})
+
+    def source(self):
+        return Obj(self.HDR, {"links": Seq(self.link(), ("links",))})
+
+    # ---- result predicates -------------------------------------------------
+    def defect(self, v, what):
+        """None when v is `what` ('header' | 'link' | 'pairs') carrying everything of the document;
+        ('loss', (reason, node, fi)) when something is provably dropped; ('unknown', text) otherwise."""
+        if isinstance(v, Unknown):
+            return ("unknown", "%s%s" % (v.reason, " (%s)" % stmt_text(v.node, 60) if v.node is not None else ""))
+        if what == "header":
+            if not (isinstance(v, Obj) and (v.cls == self.HDR or self.prog.is_subclass(v.cls, self.HDR))):
+                return ("unknown", "the value is not a LinkHeader object: %r" % (v,))
+            ls = v.attrs.get("links")
+            if not isinstance(ls, Seq):
+                return self.defect(ls, "x") if isinstance(ls, Unknown) else ("unknown", "the links of the header are %r" % (ls,))
+            if ls.loss:
+                return ("loss", ls.loss)
+            if isinstance(ls.elem, Unknown):
+                return self.defect(ls.elem, "x")
+            if ls.src != ("links",):
+                return ("unknown", "the links of the header are not one per parsed link: %r" % (ls,))
+            return self.defect(ls.elem, "link")
+        if what == "link":
+            if not (isinstance(v, Obj) and (v.cls == self.LNK or self.prog.is_subclass(v.cls, self.LNK))):
+                return ("unknown", "an element of the header's links is not a Link object: %r" % (v,))
+            h = v.attrs.get("href")
+            if not (isinstance(h, Atom) and h.kind == "href"):
+                return self.defect(h, "x") if isinstance(h, Unknown) else ("unknown", "the target of a link is %r" % (h,))
+            return self.defect(v.attrs.get("attr_pairs"), "pairs")
+        if what == "pairs":
+            if not isinstance(v, Seq):
+                return ("unknown", "the attribute pairs of a link are %r" % (v,))
+            if v.loss:
+                return ("loss", v.loss)
+            if isinstance(v.elem, Unknown):
+                return self.defect(v.elem, "x")
+            if v.src != ("pairs",):
+                return ("unknown", "the attribute pairs are not one per parsed pair: %r" % (v,))
+            p = v.elem
+            if isinstance(p, Unknown):
+                return self.defect(p, "x")
+            if not (isinstance(p, Tup) and len(p.items) == 2 and all(isinstance(x, Atom) for x in p.items) and [x.kind for x in p.items] == ["key", "val"]):
+                return ("unknown", "an attribute pair is %r" % (p,))
+            return None
+        return ("unknown", "uninterpreted value %r" % (v,))
+
+    # ---- which functions can produce link data at all ----------------------------
+    def reaches_source(self, fi, seen=None):
+        """fi (transitively, through calls resolved by name) calls the vendored parser"""
+        memo = self.__dict__.setdefault("_reach", {})
+        if fi.qn in memo:
+            return memo[fi.qn]
+        seen = seen if seen is not None else set()
+        if fi.qn in seen:
+            return False
+        seen.add(fi.qn)
+        res = False
+        for n in ast.walk(fi.node):
+            if not isinstance(n, ast.Call):
+                continue
+            c = chain(n.func)
+            q = None
+            if c:
+                try:
+                    q = self.prog.resolve_in_module(fi.module, c)
+                except Exception:
+                    q = None
+                if q not in self.prog.funcs and q not in self.prog.classes and isinstance(n.func, ast.Name):
+                    g = fi
+                    while g is not None and q not in self.prog.funcs:
+                        q = g.qn + ".<locals>." + c
+                        g = g.parent
+            if q == self.SRC:
+                res = True
+                break
+            if q in self.prog.funcs and self.reaches_source(self.prog.funcs[q], seen):
+                res = True
+                break
+        memo[fi.qn] = res
+        return res
+
+    def _escape(self, vals, node):
+        """link data handed to code that is not interpreted may be changed in place"""
+        u = self._unk("link data is handed to a function that is not interpreted", node)
+        for v in vals:
+            if isinstance(v, (Seq, Tup)):
+                self._poison(v, u)
+            elif isinstance(v, Obj):
+                for k in list(v.attrs):
+                    v.attrs[k] = u
+        return u
+
+    # ---- names ----------------------------------------------------------------
+    def _resolve(self, dotted):
+        try:
+            return self.prog.resolve_in_module(self.fi.module, dotted)
+        except Exception:
+            return None
+
+    def _unk(self, reason, node, origin=None):
+        return Unknown(reason, node, self.fi, origin)
+
+    def _taint(self, u, node):
+        """something is done to an uninterpreted part of a tracked container: the container is no longer known"""
+        o = getattr(u, "origin", None)
+        if o is not None:
+            self._escape([o], node)
+
+    def _any_tracked(self, vals):
+        return any(isinstance(v, _LV) and v.tracked for v in vals)
+
+    # ---- functions --------------------------------------------------------------
+    def call_function(self, fi, pos, kws, starmap=None, env=None, self_obj=None, node=None):
+        """Evaluate a function / lambda of the program on abstract arguments -> abstract result."""
+        if self.depth >= self.MAXDEPTH:
+            return self._unk("call nesting too deep", node)
+        fnode = fi.node
+        bound = self._bind(fnode.args, pos, kws, starmap, self_obj, fi)
+        if bound is None:
+            return self._unk("the arguments of the call cannot be matched to the parameters of %s" % fi.name, node)
+        new_env = dict(env or {})
+        new_env.update(bound)
+        saved = (self.fi, self.loops, self.conds, self.outer)
+        self.outer = self._depth()
+        self.fi, self.loops, self.conds = fi, [], []
+        self.depth += 1
+        try:
+            if isinstance(fnode, ast.Lambda):
+                return self.ev(fnode.body, new_env)
+            rets = []
+            if self.run(fnode.body, new_env, rets) and rets:
+                rets.append(NONE)
+            if not rets:
+                return NONE
+            if len({_skey(r) for r in rets}) == 1:
+                return rets[0]
+            bad = [r for r in rets if isinstance(r, Unknown)]
+            if bad:
+                return bad[0]
+            if not self._any_tracked(rets):
+                return OPAQUE
+            return self._unk("%s returns different things on different paths" % fi.name, node)
+        finally:
+            self.depth -= 1
+            self.fi, self.loops, self.conds, self.outer = saved
+
+    def _bind(self, a, pos, kws, starmap, self_obj, fi):
+        params_ = [x.arg for x in a.posonlyargs + a.args]
+        out = {}
+        pos = list(pos)
+        if self_obj is not None:
+            pos = [self_obj] + pos
+        for p, v in zip(params_, pos):
+            out[p] = v
+        extra = pos[len(params_):]
+        if extra:
+            if a.vararg is None:
+                return None
+            out[a.vararg.arg] = Tup(extra)
+        elif a.vararg is not None:
+            out[a.vararg.arg] = Tup([])
+        rest = {}
+        for k, v in kws.items():
+            if k in params_ or k in [x.arg for x in a.kwonlyargs]:
+                if k in out:
+                    return None
+                out[k] = v
+            else:
+                rest[k] = v
+        if rest or starmap is not None:
+            if a.kwarg is None:
+                return None
+            if rest:
+                # explicit additional keywords become attributes of their own: not interpreted
+                out[a.kwarg.arg] = Unknown("keyword arguments %s collected by **%s" % (sorted(rest), a.kwarg.arg), None, fi)
+            else:
+                out[a.kwarg.arg] = starmap
+        elif a.kwarg is not None:
+            out[a.kwarg.arg] = Map(empty=True)
+        dpos = a.posonlyargs + a.args
+        for p, d in list(zip(dpos[len(dpos) - len(a.defaults):], a.defaults)) + [(p, d) for p, d in zip(a.kwonlyargs, a.kw_defaults) if d is not None]:
+            if p.arg not in out:
+                out[p.arg] = NONE if isinstance(d, ast.Constant) and d.value is None else OPAQUE
+        if any(p not in out for p in params_):
+            return None
+        return out
+
+    def construct(self, cls, pos, kws, starmap=None, node=None):
+        obj = Obj(cls)
+        init = self.prog.lookup_method(cls, "__init__")
+        if init is None:
+            return obj if not (pos or kws or starmap) else self._unk("class %s without __init__ called with arguments" % cls, node)
+        r = self.call_function(init, pos, kws, starmap, self_obj=obj, node=node)
+        return r if isinstance(r, Unknown) else obj
+
+    # ---- truth --------------------------------------------------------------------
+    def truth(self, e, env):
+        """True / False when the test is decided by the abstract values, else None."""
+        if isinstance(e, ast.UnaryOp) and isinstance(e.op, ast.Not):
+            t = self.truth(e.operand, env)
+            return None if t is None else not t
+        if isinstance(e, ast.BoolOp):
+            ts = [self.truth(x, env) for x in e.values]
+            if isinstance(e.op, ast.And):
+                return False if any(t is False for t in ts) else (True if all(t is True for t in ts) else None)
+            return True if any(t is True for t in ts) else (False if all(t is False for t in ts) else None)
+        if isinstance(e, ast.Call) and isinstance(e.func, ast.Name) and e.func.id == "isinstance" and len(e.args) == 2 and e.func.id not in env:
+            v = self.ev(e.args[0], env)
+            res = []
+            for c in (e.args[1].elts if isinstance(e.args[1], ast.Tuple) else [e.args[1]]):
+                q = self._resolve(chain(c)) if chain(c) else None
+                if q in self.prog.classes:
+                    if isinstance(v, Obj):
+                        res.append(v.cls == q or self.prog.is_subclass(v.cls, q))
+                    elif isinstance(v, (Tup, Seq, Map, Atom)) or v is NONE:
+                        res.append(False)
+                    else:
+                        res.append(None)
+                else:
+                    res.append(None)
+            return True if any(r is True for r in res) else (False if all(r is False for r in res) else None)
+        if isinstance(e, ast.Compare) and len(e.ops) == 1 and isinstance(e.ops[0], (ast.Is, ast.IsNot, ast.Eq, ast.NotEq)):
+            l, r = e.left, e.comparators[0]
+            o = l if isinstance(r, ast.Constant) and r.value is None else (r if isinstance(l, ast.Constant) and l.value is None else None)
+            if o is not None:
+                v = self.ev(o, env)
+                isnone = True if v is NONE else (False if isinstance(v, (Obj, Seq, Tup, Map)) or (isinstance(v, Atom) and v.kind != "val") else None)
+                if isnone is None:
+                    return None
+                return isnone if isinstance(e.ops[0], (ast.Is, ast.Eq)) else not isnone
+            return None
+        if isinstance(e, (ast.Name, ast.Attribute)):
+            v = self.ev(e, env)
+            if v is NONE:
+                return False
+            if isinstance(v, Obj):
+                return True
+            if (isinstance(v, Map) or isinstance(v, Seq)) and v.empty:
+                return False
+        return None
+
+    # ---- filters: is there a document for which the condition drops an element? -----
+    def _consts(self, e):
+        return [n.value for n in ast.walk(e) if isinstance(n, ast.Constant) and isinstance(n.value, str)]
+
+    def _conc(self, e, env, sample):
+        if isinstance(e, ast.Constant):
+            return e.value
+        if isinstance(e, (ast.Name, ast.Attribute, ast.Subscript)) and not (isinstance(e, ast.Subscript) and isinstance(e.slice, ast.Slice)):
+            return self._concretise(self.ev(e, env), sample)
+        if isinstance(e, (ast.Tuple, ast.List, ast.Set)):
+            return tuple(self._conc(x, env, sample) for x in e.elts)
+        if isinstance(e, ast.UnaryOp) and isinstance(e.op, ast.Not):
+            return not self._conc(e.operand, env, sample)
+        if isinstance(e, ast.BoolOp):
+            v = None
+            for x in e.values:
+                v = self._conc(x, env, sample)
+                if isinstance(e.op, ast.And) and not v:
+                    return v
+                if isinstance(e.op, ast.Or) and v:
+                    return v
+            return v
+        if isinstance(e, ast.Compare):
+            l = self._conc(e.left, env, sample)
+            for op, c in zip(e.ops, e.comparators):
+                r = self._conc(c, env, sample)
+                try:
+                    if isinstance(op, (ast.Is, ast.IsNot)):
+                        if not (l is None or r is None):
+                            raise _NoEval()
+                        ok = (l is None and r is None) == isinstance(op, ast.Is)
+                    else:
+                        ok = {ast.Eq: lambda: l == r, ast.NotEq: lambda: l != r, ast.In: lambda: l in r, ast.NotIn: lambda: l not in r,
+                              ast.Lt: lambda: l < r, ast.LtE: lambda: l <= r, ast.Gt: lambda: l > r, ast.GtE: lambda: l >= r}[type(op)]()
+                except _NoEval:
+                    raise
+                except Exception:
+                    raise _NoEval()
+                if not ok:
+                    return False
+                l = r
+            return True
+        if isinstance(e, ast.Call) and not e.keywords and not any(isinstance(a, ast.Starred) for a in e.args):
+            args = [self._conc(a, env, sample) for a in e.args]
+            try:
+                if isinstance(e.func, ast.Name) and e.func.id in ("len", "str", "bool") and len(args) == 1 and e.func.id not in env:
+                    return {"len": len, "str": str, "bool": bool}[e.func.id](args[0])
+                if isinstance(e.func, ast.Attribute) and e.func.attr in _STR_METHODS:
+                    recv = self._conc(e.func.value, env, sample)
+                    if isinstance(recv, str):
+                        return getattr(recv, e.func.attr)(*args)
+            except _NoEval:
+                raise
+            except Exception:
+                raise _NoEval()
+        raise _NoEval()
+
+    def _concretise(self, v, sample):
+        if v is NONE:
+            return None
+        if isinstance(v, Atom):
+            return sample[v.kind]
+        if isinstance(v, Tup):
+            return tuple(self._concretise(x, sample) for x in v.items)
+        raise _NoEval()
+
+    def falsifiable(self, conds):
+        """True: some document makes the conjunction of the conditions [(test, polarity, env)] false (a witness
+        assignment of target / attribute name / attribute value exists: names are non-empty tokens, values are
+        strings or None, targets are strings); False: not for the sampled documents; None: cannot be evaluated."""
+        import re as _re
+        consts = [c for t, _, _ in conds for c in self._consts(t)]
+        keys = ["a"] + [c for c in consts if _re.fullmatch(r"[^()<>@,;:\"\[\]?={}\s]+", c)]  # what the parser accepts as a name
+        vals = [None, "", "x"] + consts
+        hrefs = ["", "/x"] + [c for c in consts if ">" not in c]
+        try:
+            for k in keys:
+                for v in vals:
+                    for h in hrefs:
+                        sample = {"key": k, "val": v, "href": h}
+                        if not all(bool(self._conc(t, env, sample)) == pol for t, pol, env in conds):
+                            return True
+        except _NoEval:
+            return None
+        return False
+
+    def _filter_loss(self, conds, node):
+        """loss marker / Unknown / None for an element that is only kept under the conditions"""
+        if not conds:
+            return None
+        f = self.falsifiable(conds)
+        if f is True:
+            return ("elements are dropped by a condition on their content (%s)" % " and ".join(("%s" if pol else "not (%s)") % stmt_text(t, 50) for t, pol, _ in conds), node, self.fi)
+        return self._unk("elements are kept only under a condition that cannot be evaluated on sample documents", node)
+
+    # ---- expressions -----------------------------------------------------------------
+    def ev(self, e, env):
+        if isinstance(e, ast.Constant):
+            return NONE if e.value is None else OPAQUE
+        if isinstance(e, ast.Name):
+            if e.id in env:
+                return env[e.id]
+            return OPAQUE
+        if isinstance(e, ast.Await):
+            return self.ev(e.value, env)
+        if isinstance(e, ast.NamedExpr):
+            v = self.ev(e.value, env)
+            env[e.target.id] = v
+            return v
+        if isinstance(e, ast.Attribute):
+            v = self.ev(e.value, env)
+            if isinstance(v, Unknown):
+                return v
+            if isinstance(v, Obj):
+                if e.attr in v.attrs:
+                    return v.attrs[e.attr]
+                if e.attr == "__class__":
+                    return OPAQUE
+                m = self.prog.lookup_method(v.cls, e.attr)
+                if m is not None and _is_property(m):
+                    return self.call_function(m, [], {}, self_obj=v, node=e)
+                return self._unk("attribute .%s of a %s object" % (e.attr, v.cls.split(".")[-1]), e)
+            if v.tracked:
+                return self._unk("attribute .%s of %r" % (e.attr, v), e)
+            return OPAQUE
+        if isinstance(e, ast.Subscript):
+            v = self.ev(e.value, env)
+            if isinstance(v, Unknown):
+                return v
+            if isinstance(e.slice, ast.Slice):
+                s = e.slice
+                if isinstance(v, (Seq, Tup)):
+                    full = (s.lower is None or (isinstance(s.lower, ast.Constant) and s.lower.value in (0, None))) and (s.upper is None or (isinstance(s.upper, ast.Constant) and s.upper.value is None)) \
+                        and (s.step is None or (isinstance(s.step, ast.Constant) and s.step.value in (1, None)))
+                    if full:
+                        return v
+                    plain_step = s.step is None or (isinstance(s.step, ast.Constant) and s.step.value in (1, None))
+                    if isinstance(v, Seq) and not v.empty and plain_step and all(x is None or (isinstance(x, ast.Constant) and (x.value is None or type(x.value) is int)) for x in (s.lower, s.upper)):
+                        # [:n] / [n:] / [a:b] with integer constants: a document with enough elements loses some
+                        return Seq(v.elem, v.src, v.loss or ("a slice with constant bounds keeps only part of the elements", e, self.fi))
+                    return self._unk("slice of %r" % (v,), e)
+                return OPAQUE if not v.tracked else self._unk("slice of %r" % (v,), e)
+            if isinstance(v, Tup) and isinstance(e.slice, ast.Constant) and isinstance(e.slice.value, int) and -len(v.items) <= e.slice.value < len(v.items):
+                return v.items[e.slice.value]
+            if v.tracked:
+                return self._unk("item of %r" % (v,), e, origin=v if isinstance(v, (Seq, Obj)) else None)
+            return OPAQUE
+        if isinstance(e, (ast.List, ast.Tuple)):
+            if any(isinstance(x, ast.Starred) for x in e.elts):
+                parts = [self.ev(x.value, env) if isinstance(x, ast.Starred) else Tup([self.ev(x, env)]) for x in e.elts]
+                return self._concat(parts, e)
+            if not e.elts and isinstance(e, ast.List):
+                return self._empty()
+            items = [self.ev(x, env) for x in e.elts]
+            bad = [x for x in items if isinstance(x, Unknown)]
+            return bad[0] if bad else Tup(items)
+        if isinstance(e, ast.Dict):
+            if not e.keys:
+                return Map(empty=True)
+            vs = [self.ev(x, env) for x in e.values if x is not None] + [self.ev(k, env) for k in e.keys if k is not None]
+            return self._unk("dict display over link data", e) if self._any_tracked(vs) else OPAQUE
+        if isinstance(e, ast.BinOp) and isinstance(e.op, ast.Add):
+            return self._concat([self.ev(e.left, env), self.ev(e.right, env)], e)
+        if isinstance(e, ast.BoolOp) and isinstance(e.op, ast.Or) and len(e.values) == 2:
+            a = self.ev(e.values[0], env)
+            if isinstance(a, Unknown):
+                return a
+            if a is NONE or (isinstance(a, Map) and a.empty) or (isinstance(a, Seq) and a.empty):
+                return self.ev(e.values[1], env)
+            b = self.ev(e.values[1], env)
+            if isinstance(a, Seq) and isinstance(b, Seq) and b.empty:
+                return a  # a falsy list is the empty list: `x or []` is x
+            if isinstance(a, Obj):
+                return a
+            if isinstance(a, Map) and isinstance(b, Map) and b.empty:
+                return a
+            if not a.tracked and not b.tracked:
+                return OPAQUE
+            return self._unk("`or` over link data", e)
+        if isinstance(e, ast.IfExp):
+            t = self.truth(e.test, env)
+            if t is not None:
+                return self.ev(e.body if t else e.orelse, env)
+            a, b = self.ev(e.body, env), self.ev(e.orelse, env)
+            if _skey(a) == _skey(b):
+                return a
+            for x in (a, b):
+                if isinstance(x, Unknown):
+                    return x
+            if not a.tracked and not b.tracked:
+                return OPAQUE
+            return self._unk("conditional expression with different link data in its arms", e)
+        if isinstance(e, (ast.ListComp, ast.GeneratorExp, ast.SetComp, ast.DictComp)):
+            return self._comp(e, env)
+        if isinstance(e, ast.Lambda):
+            return Fn(lambda_info(self.fi, e), env)
+        if isinstance(e, ast.Call):
+            return self._call(e, env)
+        if isinstance(e, ast.Starred):
+            return self._unk("star expression", e)
+        # anything else: arithmetic, comparisons, f-strings ... over values that are not link data
+        vs = [self.ev(x, env) for x in ast.iter_child_nodes(e) if isinstance(x, ast.expr)]
+        bad = [x for x in vs if isinstance(x, Unknown)]
+        if bad:
+            return bad[0]
+        if isinstance(e, (ast.Compare, ast.BoolOp, ast.UnaryOp, ast.JoinedStr, ast.FormattedValue)):
+            return OPAQUE
+        return self._unk("expression over link data", e) if self._any_tracked(vs) else OPAQUE
+
+    def _concat(self, parts, node):
+        bad = [x for x in parts if isinstance(x, Unknown)]
+        if bad:
+            return bad[0]
+        parts = [p for p in parts if not ((isinstance(p, Seq) and p.empty) or (isinstance(p, Tup) and not p.items))]
+        if not parts:
+            return self._empty()
+        if len(parts) == 1 and isinstance(parts[0], (Seq, Tup)):
+            return parts[0]
+        if all(isinstance(p, Tup) for p in parts):
+            return Tup([x for p in parts for x in p.items])
+        if not self._any_tracked(parts):
+            return OPAQUE
+        return self._unk("concatenation of link data with further elements", node)
+
+    def _bind_target(self, t, v, env, node):
+        """bind a loop / comprehension / assignment target to an abstract value; False when not understood"""
+        if isinstance(t, ast.Name):
+            env[t.id] = v
+            return True
+        if isinstance(t, (ast.Tuple, ast.List)) and not any(isinstance(x, ast.Starred) for x in t.elts):
+            if isinstance(v, Tup) and len(v.items) == len(t.elts):
+                return all(self._bind_target(x, y, env, node) for x, y in zip(t.elts, v.items))
+            if not v.tracked:
+                return all(self._bind_target(x, OPAQUE, env, node) for x in t.elts)
+            u = v if isinstance(v, Unknown) else self._unk("unpacking of %r" % (v,), node)
+            for n in ast.walk(t):
+                if isinstance(n, ast.Name):
+                    env[n.id] = u
+            return True
+        return False
+
+    def _comp(self, e, env):
+        env = dict(env)
+        if len(e.generators) != 1 or e.generators[0].is_async:
+            vs = [self.ev(g.iter, env) for g in e.generators]
+            return self._unk("comprehension with several `for` clauses over link data", e) if self._any_tracked(vs) else OPAQUE
+        g = e.generators[0]
+        it = self.ev(g.iter, env)
+        if isinstance(it, Unknown):
+            return it
+        if isinstance(it, Map) and not it.empty:
+            return self._unk("iteration over a mapping of the attribute pairs", e)
+        if isinstance(it, Tup):
+            # a display of known length: element-wise
+            items = []
+            for x in it.items:
+                env2 = dict(env)
+                if not self._bind_target(g.target, x, env2, e) or g.ifs:
+                    return self._unk("comprehension over a display of link data", e)
+                items.append(self.ev(e.elt, env2) if not isinstance(e, ast.DictComp) else self._unk("dict comprehension", e))
+            bad = [x for x in items if isinstance(x, Unknown)]
+            return bad[0] if bad else Tup(items)
+        if not isinstance(it, Seq):
+            if not self._bind_target(g.target, OPAQUE, env, e):
+                return OPAQUE
+            saved = self.loops
+            self.loops = self.loops + [(None, len(self.conds), False)]
+            try:
+                vs = [self.ev(e.elt, env)] if not isinstance(e, ast.DictComp) else [self.ev(e.key, env), self.ev(e.value, env)]
+            finally:
+                self.loops = saved
+            bad = [x for x in vs if isinstance(x, Unknown)]
+            return bad[0] if bad else (self._unk("comprehension over something else that yields link data", e) if self._any_tracked(vs) else OPAQUE)
+        if it.empty:
+            return self._empty() if not isinstance(e, ast.DictComp) else Map(empty=True)
+        if any(l[0] is not None and l[0].src == it.src for l in self.loops):
+            return self._unk("nested iteration over the same collection", e)
+        if not self._bind_target(g.target, it.elem, env, e):
+            return self._unk("comprehension target", e)
+        loss = it.loss
+        if g.ifs:
+            fl = self._filter_loss([(t, True, env) for t in g.ifs], g.ifs[0])
+            if isinstance(fl, Unknown):
+                return fl
+            loss = loss or fl
+        saved = self.loops
+        self.loops = self.loops + [(it, len(self.conds), False)]
+        try:
+            if isinstance(e, ast.DictComp):
+                k, v = self.ev(e.key, env), self.ev(e.value, env)
+                for x in (k, v):
+                    if isinstance(x, Unknown):
+                        return x
+                if isinstance(k, Atom) and k.kind == "key" and it.src == ("pairs",):
+                    return Map(loss=loss or ("the pairs are collected into a mapping keyed by the attribute name: an attribute that occurs more than once keeps only its last value", e, self.fi))
+                return self._unk("dict comprehension over link data", e)
+            elt = self.ev(e.elt, env)
+        finally:
+            self.loops = saved
+        if isinstance(elt, Unknown):
+            return elt
+        if isinstance(e, ast.SetComp):
+            return self._unk("set comprehension over link data", e)
+        return Seq(elt, it.src, loss)
+
+    def _callee(self, f, env):
+        """('class', qn) | ('func', FuncInfo) | ('fn', Fn) | ('builtin', name) | ('method', receiver value, name) | None"""
+        if isinstance(f, ast.Name):
+            if f.id in env:
+                v = env[f.id]
+                return ("fn", v) if isinstance(v, Fn) else None
+            g = self.fi
+            while g is not None:
+                q = g.qn + ".<locals>." + f.id
+                if q in self.prog.funcs:
+                    return ("func", self.prog.funcs[q])
+                g = g.parent
+            q = self._resolve(f.id)
+            if q in self.prog.classes:
+                return ("class", q)
+            if q in self.prog.funcs:
+                return ("func", self.prog.funcs[q])
+            if f.id in _LF_BUILTINS and q == f.id:
+                return ("builtin", f.id)
+            if q in ("typing.cast", "copy.copy", "copy.deepcopy", "itertools.starmap", "collections.OrderedDict"):
+                return ("builtin", {"typing.cast": "cast", "copy.copy": "copy", "copy.deepcopy": "copy", "itertools.starmap": "starmap", "collections.OrderedDict": "dict"}[q])
+            return None
+        if isinstance(f, ast.Attribute):
+            c = chain(f)
+            root = c.split(".")[0] if c else None
+            if c and root not in env:
+                q = self._resolve(c)
+                if q in self.prog.classes:
+                    return ("class", q)
+                if q in self.prog.funcs:
+                    return ("func", self.prog.funcs[q])
+                if q in ("collections.OrderedDict", "collections.defaultdict", "OrderedDict"):
+                    return ("builtin", "dict")
+                if q in ("copy.copy", "copy.deepcopy"):
+                    return ("builtin", "copy")
+                if q == "typing.cast":
+                    return ("builtin", "cast")
+                if q in ("itertools.starmap",):
+                    return ("builtin", "starmap")
+                if root not in ("self", "cls"):
+                    return None
+            return ("method", self.ev(f.value, env), f.attr)
+        if isinstance(f, ast.Lambda):
+            return ("fn", Fn(lambda_info(self.fi, f), env))
+        return None
+
+    def _args(self, call, env):
+        """(positional values, keyword values, ** mapping) or an Unknown"""
+        pos, kws, sm = [], {}, None
+        for a in call.args:
+            if isinstance(a, ast.Starred):
+                v = self.ev(a.value, env)
+                if isinstance(v, Tup):
+                    pos += v.items
+                elif isinstance(v, Unknown):
+                    return v
+                else:
+                    return self._unk("* argument %r" % (v,), call)
+            else:
+                pos.append(self.ev(a, env))
+        for k in call.keywords:
+            v = self.ev(k.value, env)
+            if k.arg is None:
+                if isinstance(v, Unknown):
+                    return v
+                if not isinstance(v, Map) or sm is not None:
+                    return self._unk("** argument %r" % (v,), call)
+                sm = v
+            else:
+                kws[k.arg] = v
+        return pos, kws, sm
+
+    def _call(self, call, env):
+        tgt = self._callee(call.func, env)
+        args = self._args(call, env)
+        if isinstance(args, Unknown):
+            return args
+        pos, kws, sm = args
+        allv = pos + list(kws.values()) + ([sm] if sm is not None else [])
+        bad = [x for x in allv if isinstance(x, Unknown)]
+        if tgt is None:
+            if bad:
+                return bad[0]
+            if isinstance(call.func, ast.Attribute):
+                r = self.ev(call.func.value, env)
+                if isinstance(r, Unknown):
+                    return r
+                allv = allv + [r]
+            if is_log_call(call) or not self._any_tracked(allv):
+                return OPAQUE
+            return self._escape(allv, call)
+        kind = tgt[0]
+        if kind == "class":
+            if not self._any_tracked(allv) and not bad and not (tgt[1] in (self.HDR, self.LNK) or self.prog.is_subclass(tgt[1], self.HDR) or self.prog.is_subclass(tgt[1], self.LNK)):
+                return OPAQUE
+            return self.construct(tgt[1], pos, kws, sm, node=call)
+        if kind == "func":
+            if tgt[1].qn == self.SRC:
+                return self.source()
+            if not self._any_tracked(allv) and not bad and not self.reaches_source(tgt[1]):
+                return OPAQUE
+            return self.call_function(tgt[1], pos, kws, sm, node=call)
+        if kind == "fn":
+            return self.call_function(tgt[1].fi, pos, kws, sm, env=tgt[1].env, node=call)
+        if bad:
+            return bad[0]
+        if kind == "builtin":
+            return self._builtin(tgt[1], call, pos, kws, sm, env)
+        recv, name = tgt[1], tgt[2]
+        if isinstance(recv, Unknown):
+            self._taint(recv, call)
+            return recv
+        if isinstance(recv, Obj):
+            m = self.prog.lookup_method(recv.cls, name)
+            if m is None:
+                return self._unk("method .%s of a %s object" % (name, recv.cls.split(".")[-1]), call)
+            return self.call_function(m, pos, kws, sm, self_obj=None if is_static(m) else recv, node=call)
+        if isinstance(recv, Map):
+            if name == "items" and not allv:
+                if recv.empty:
+                    return self._empty()
+                return Seq(Tup([Atom("key"), Atom("val")]), ("pairs",), recv.loss or ("read back from a mapping keyed by the attribute name", call, self.fi))
+            if name == "copy" and not allv:
+                return recv
+            return self._unk("method .%s of a mapping of the attribute pairs" % name, call)
+        if isinstance(recv, (Seq, Tup)):
+            if name == "copy" and not allv:
+                return recv
+            return self._mutate(recv, name, call, pos, env)
+        if isinstance(recv, Atom):
+            return self._unk("the %s of a link is transformed by .%s()" % ({"key": "attribute name", "val": "attribute value", "href": "target"}[recv.kind], name), call)
+        return self._escape(allv, call) if self._any_tracked(allv) else OPAQUE
+
+    def _builtin(self, name, call, pos, kws, sm, env):
+        allv = pos + list(kws.values()) + ([sm] if sm is not None else [])
+        if not allv and name in ("list", "tuple", "dict"):
+            return {"list": self._empty(), "tuple": Tup([]), "dict": Map(empty=True)}[name]
+        if not self._any_tracked(allv):
+            return OPAQUE
+        if name in ("len", "isinstance", "bool", "any", "all", "print", "repr", "str", "type", "id", "hasattr"):
+            return OPAQUE
+        if name == "cast" and len(pos) == 2 and not kws:
+            return pos[1]  # typing.cast(T, x) is x
+        if name == "copy" and len(pos) == 1 and not kws and isinstance(pos[0], (Obj, Seq, Tup, Map)):
+            return _clone(pos[0], {})
+        if name in ("list", "tuple", "iter") and len(pos) == 1 and not kws and sm is None:
+            v = pos[0]
+            if isinstance(v, (Seq, Tup)):
+                return v
+            if isinstance(v, Map):
+                return self._unk("the keys of a mapping of the attribute pairs", call)
+        if name == "dict" and not kws:
+            if len(pos) == 1 and sm is None:
+                v = pos[0]
+                if isinstance(v, Map):
+                    return v
+                if isinstance(v, Seq) and v.empty:
+                    return Map(empty=True)
+                if isinstance(v, Seq) and v.src == ("pairs",) and isinstance(v.elem, Tup) and len(v.elem.items) == 2 and isinstance(v.elem.items[0], Atom) and v.elem.items[0].kind == "key":
+                    return Map(loss=v.loss or ("the pairs are collected into a mapping keyed by the attribute name: an attribute that occurs more than once keeps only its last value", call, self.fi))
+            if not pos and sm is not None:
+                return sm
+        if name in ("map", "starmap") and len(pos) == 2 and isinstance(pos[0], Fn) and isinstance(pos[1], Seq) and not kws:
+            f, it = pos
+            if it.empty:
+                return self._empty()
+            saved = self.loops
+            self.loops = self.loops + [(it, len(self.conds), False)]
+            try:
+                if name == "starmap":
+                    if not isinstance(it.elem, Tup):
+                        return self._unk("starmap over %r" % (it,), call)
+                    elt = self.call_function(f.fi, list(it.elem.items), {}, env=f.env, node=call)
+                else:
+                    elt = self.call_function(f.fi, [it.elem], {}, env=f.env, node=call)
+            finally:
+                self.loops = saved
+            return elt if isinstance(elt, Unknown) else Seq(elt, it.src, it.loss)
+        if name == "map" and len(pos) == 2 and isinstance(pos[1], Seq) and not kws and len(call.args) == 2:
+            # map(Class, seq) / map(function, seq)
+            it = pos[1]
+            t = self._callee(call.args[0], env)
+            if it.empty:
+                return self._empty()
+            if t is not None and t[0] in ("class", "func"):
+                elt = self.construct(t[1], [it.elem], {}, node=call) if t[0] == "class" else self.call_function(t[1], [it.elem], {}, node=call)
+                return elt if isinstance(elt, Unknown) else Seq(elt, it.src, it.loss)
+        if name == "filter" and len(pos) == 2 and isinstance(pos[1], Seq) and not pos[1].empty and isinstance(call.args[0], ast.Lambda) and len(call.args[0].args.args) == 1:
+            lam = call.args[0]
+            env2 = dict(env)
+            env2[lam.args.args[0].arg] = pos[1].elem
+            fl = self._filter_loss([(lam.body, True, env2)], call)
+            return fl if isinstance(fl, Unknown) else Seq(pos[1].elem, pos[1].src, pos[1].loss or fl)
+        return self._unk("%s() over link data" % name, call)
+
+    def _in_loop_over(self):
+        return self.loops[-1] if self.loops else None
+
+    def _mutate(self, recv, name, call, pos, env):
+        """a method call on a list: accumulation (`acc.append(x)` once per iteration, `acc.extend(seq)`),
+        removal (-> loss), anything else -> Unknown"""
+        if name not in _LF_MUTATORS:
+            if name in ("index", "count", "__len__", "__contains__"):
+                return OPAQUE
+            return self._unk("method .%s of %r" % (name, recv), call)
+        if isinstance(recv, Tup):
+            return self._poison(recv, self._unk("in-place change of a display of link data", call))
+        if name in _LF_REMOVERS:
+            if recv.empty:
+                return OPAQUE
+            if not recv.loss:
+                recv.loss = ("elements are removed in place (.%s)" % name, call, self.fi)
+            return OPAQUE
+        if name == "append" and len(pos) == 1:
+            v = pos[0]
+            if isinstance(v, Unknown):
+                return self._poison(recv, v)
+            lp = self._in_loop_over()
+            if lp is None or lp[0] is None:
+                if recv.empty and not v.tracked:
+                    return OPAQUE
+                return self._poison(recv, self._unk("a single element is appended to a list of link data", call))
+            it, ncond, bad_flow = lp
+            if not recv.empty or bad_flow or getattr(recv, "_born", None) != self._depth() - 1:
+                return self._poison(recv, self._unk("accumulation that is not one append per iteration", call))
+            loss = it.loss
+            conds = self.conds[ncond:]
+            if conds:
+                fl = self._filter_loss(conds, call)
+                if isinstance(fl, Unknown):
+                    return self._poison(recv, fl)
+                loss = loss or fl
+            recv.elem, recv.src, recv.loss = v, it.src, loss
+            return OPAQUE
+        if name == "extend" and len(pos) == 1:
+            v = pos[0]
+            if isinstance(v, Unknown):
+                return self._poison(recv, v)
+            if isinstance(v, Seq) and (v.empty or (recv.empty and getattr(recv, "_born", None) == self._depth())):
+                if not v.empty:
+                    recv.elem, recv.src, recv.loss = v.elem, v.src, v.loss
+                return OPAQUE
+            if not v.tracked and recv.empty:
+                return OPAQUE
+            return self._poison(recv, self._unk("a list of link data is extended", call))
+        return self._poison(recv, self._unk("in-place change of a list of link data (.%s)" % name, call))
+
+    def _poison(self, recv, unk):
+        if isinstance(recv, Seq):
+            recv.elem, recv.src, recv.loss = unk, ("?",), None
+        elif isinstance(recv, Tup):
+            recv.items = [unk]
+        return OPAQUE
+
+    # ---- statements ----------------------------------------------------------------------
+    def run(self, stmts, env, rets, loop_body=False):
+        """Execute a statement list; returns False when control cannot fall off its end."""
+        pushed = 0
+        try:
+            for st in stmts:
+                if loop_body and isinstance(st, ast.If) and not st.orelse and len(st.body) == 1 and isinstance(st.body[0], ast.Continue):
+                    # `if c: ...; continue` -- the rest of the loop body runs under `not c`
+                    self.conds.append((st.test, False, dict(env)))
+                    pushed += 1
+                    continue
+                if not self.step(st, env, rets):
+                    return False
+            return True
+        finally:
+            for _ in range(pushed):
+                self.conds.pop()
+
+    def _join(self, env, envs):
+        names = set()
+        for x in envs:
+            names |= set(x)
+        for n in names:
+            vals = [x.get(n, OPAQUE) for x in envs]
+            if len({_skey(v) for v in vals}) == 1:
+                env[n] = vals[0]
+                continue
+            if all(isinstance(v, Seq) for v in vals):
+                # an accumulator that receives its element of this iteration on some branches only: on the others
+                # the element is dropped -- the append was already judged under its branch condition (_mutate)
+                filled = [v for v in vals if not v.empty]
+                if filled and len(filled) < len(vals) and len({_skey(v) for v in filled}) == 1 and filled[0].loss:
+                    env[n] = filled[0]
+                    continue
+            bad = [v for v in vals if isinstance(v, Unknown)]
+            if bad:
+                env[n] = bad[0]
+            elif not self._any_tracked(vals):
+                env[n] = OPAQUE
+            else:
+                env[n] = Unknown("%s holds different link data depending on the branch taken" % n, None, self.fi)
+
+    def _exec_branches(self, st, env, rets):
+        t = self.truth(st.test, env)
+        if t is not None:
+            return self.run(st.body if t else st.orelse, env, rets)
+        outs = []
+        before = dict(env)
+        for body, pol in ((st.body, True), (st.orelse, False)):
+            memo = {}
+            e2 = {k: _clone(v, memo) for k, v in env.items()}
+            self.conds.append((st.test, pol, dict(e2)))
+            try:
+                if self.run(body, e2, rets):
+                    outs.append(e2)
+            finally:
+                self.conds.pop()
+        if not outs:
+            return False
+        # in-place changes made in a branch are seen through the joined environment only: keep the objects
+        # of the first surviving branch and require the others to agree structurally
+        joined = dict(outs[0])
+        self._join(joined, outs)
+        # objects that existed before the statement keep their identity (they may be referenced from outside
+        # this environment, e.g. the object under construction): the joined state is written back into them
+        for n, orig in before.items():
+            j = joined.get(n)
+            if isinstance(orig, (Obj, Seq, Tup, Map)) and type(j) is type(orig) and j is not orig:
+                orig.__dict__.clear()
+                orig.__dict__.update(j.__dict__)
+                joined[n] = orig
+        env.clear()
+        env.update(joined)
+        return True
+
+    def step(self, st, env, rets):
+        if isinstance(st, (ast.Pass, ast.Import, ast.ImportFrom, ast.Global, ast.Nonlocal, ast.Assert)):
+            return True
+        if isinstance(st, (ast.FunctionDef, ast.AsyncFunctionDef)):
+            q = self.fi.qn + ".<locals>." + st.name
+            f = self.prog.funcs.get(q)
+            env[st.name] = Fn(f, env) if f is not None else OPAQUE
+            return True
+        if isinstance(st, ast.ClassDef):
+            return True
+        if isinstance(st, ast.Return):
+            rets.append(self.ev(st.value, env) if st.value is not None else NONE)
+            return False
+        if isinstance(st, ast.Raise):
+            return False
+        if isinstance(st, (ast.Continue, ast.Break)):
+            if self.loops:
+                self.loops[-1] = (self.loops[-1][0], self.loops[-1][1], True)
+            return False
+        if isinstance(st, ast.Expr):
+            if isinstance(st.value, ast.Constant):
+                return True
+            if isinstance(st.value, ast.Call) and is_log_call(st.value):
+                return True
+            self.ev(st.value, env)
+            return True
+        if isinstance(st, (ast.Assign, ast.AnnAssign)):
+            if st.value is None:
+                return True
+            v = self.ev(st.value, env)
+            for t in (st.targets if isinstance(st, ast.Assign) else [st.target]):
+                self._store(t, v, env, st)
+            return True
+        if isinstance(st, ast.AugAssign):
+            if isinstance(st.op, ast.Add) and isinstance(st.target, ast.Name):
+                cur = env.get(st.target.id, OPAQUE)
+                v = self.ev(st.value, env)
+                if isinstance(cur, Seq):
+                    # acc += [x] / acc += seq
+                    if isinstance(v, Tup) and len(v.items) == 1:
+                        self._mutate(cur, "append", st, [v.items[0]], env)
+                    else:
+                        self._mutate(cur, "extend", st, [v], env)
+                    return True
+                if cur.tracked or v.tracked:
+                    env[st.target.id] = v if isinstance(v, Unknown) else self._unk("augmented assignment over link data", st)
+                return True
+            v = self.ev(st.value, env)
+            tv = self.ev(st.target, env) if not isinstance(st.target, ast.Name) else env.get(st.target.id, OPAQUE)
+            if v.tracked or tv.tracked:
+                self._store(st.target, self._unk("augmented assignment over link data", st), env, st)
+            return True
+        if isinstance(st, ast.Delete):
+            for t in st.targets:
+                if isinstance(t, ast.Subscript):
+                    v = self.ev(t.value, env)
+                    if isinstance(v, Seq) and not v.empty and not v.loss:
+                        v.loss = ("elements are deleted in place", st, self.fi)
+                    elif isinstance(v, Unknown):
+                        self._taint(v, st)
+                    elif isinstance(v, (Tup, Map, Obj)):
+                        self._escape([v], st)
+                elif isinstance(t, ast.Name):
+                    env.pop(t.id, None)
+                elif isinstance(t, ast.Attribute):
+                    v = self.ev(t.value, env)
+                    if isinstance(v, Obj):
+                        v.attrs[t.attr] = self._unk("deleted attribute", st)
+            return True
+        if isinstance(st, ast.If):
+            return self._exec_branches(st, env, rets)
+        if isinstance(st, (ast.For, ast.AsyncFor)):
+            return self._for(st, env, rets)
+        if isinstance(st, ast.While):
+            return self._opaque_block(st, env, rets, "while loop")
+        if isinstance(st, (ast.With, ast.AsyncWith)):
+            for it in st.items:
+                v = self.ev(it.context_expr, env)
+                if it.optional_vars is not None:
+                    self._bind_target(it.optional_vars, OPAQUE if not v.tracked else self._unk("context manager over link data", st), env, st)
+            return self.run(st.body, env, rets)
+        if isinstance(st, ast.Try):
+            # handlers that only translate the error (every path raises) do not produce a result
+            for h in st.handlers:
+                if not _always_raises(h.body):
+                    return self._opaque_block(st, env, rets, "try statement with a handler that continues")
+            ok = self.run(st.body, env, rets)
+            if ok and st.orelse:
+                ok = self.run(st.orelse, env, rets)
+            if st.finalbody:
+                ok2 = self.run(st.finalbody, env, rets)
+                ok = ok and ok2
+            return ok
+        return self._opaque_block(st, env, rets, type(st).__name__)
+
+    def _opaque_block(self, st, env, rets, what):
+        """a statement that is not interpreted: harmless when it neither reads nor binds link data"""
+        names = {n.id for n in ast.walk(st) if isinstance(n, ast.Name)}
+        touched = [n for n in names if isinstance(env.get(n), _LV) and env[n].tracked]
+        u = self._unk("%s over link data is not interpreted" % what, st)
+        if touched or any(isinstance(n, ast.Return) for n in ast.walk(st)):
+            for n in touched:
+                if isinstance(env[n], (Seq, Tup)):
+                    self._poison(env[n], u)
+                env[n] = u
+            if any(isinstance(n, ast.Return) and n.value is not None for n in ast.walk(st)):
+                rets.append(u)
+        for n in ast.walk(st):
+            if isinstance(n, ast.Name) and isinstance(n.ctx, ast.Store) and n.id not in touched:
+                env[n.id] = OPAQUE if not touched else u
+        return True
+
+    def _store(self, t, v, env, st):
+        if isinstance(t, ast.Name):
+            env[t.id] = v
+            return
+        if isinstance(t, (ast.Tuple, ast.List)):
+            if not self._bind_target(t, v, env, st):
+                for n in ast.walk(t):
+                    if isinstance(n, ast.Name):
+                        env[n.id] = self._unk("unpacking", st) if v.tracked else OPAQUE
+            return
+        if isinstance(t, ast.Attribute):
+            o = self.ev(t.value, env)
+            if isinstance(o, Obj):
+                if t.attr == "__class__":
+                    q = self._resolve(chain(st.value)) if isinstance(st, (ast.Assign, ast.AnnAssign)) and chain(st.value) else None
+                    if q in self.prog.classes:
+                        o.cls = q
+                    return
+                lp = self._in_loop_over()
+                if lp is not None and self.conds[lp[1]:] and t.attr in o.attrs:
+                    v = v if isinstance(v, Unknown) else self._unk("an attribute of the links is replaced under a condition", st)
+                o.attrs[t.attr] = v
+            elif isinstance(o, Unknown):
+                self._taint(o, st)
+            elif isinstance(o, _LV) and o.tracked:
+                self._poison(o, self._unk("attribute store on link data", st))
+            return
+        if isinstance(t, ast.Subscript):
+            o = self.ev(t.value, env)
+            if isinstance(o, (Seq, Tup)) and (not (isinstance(o, Seq) and o.empty) or v.tracked):
+                self._poison(o, self._unk("item store into a list of link data", st))
+            elif isinstance(o, Map):
+                o.loss, o.empty = ("a mapping keyed by the attribute name is filled item by item", st, self.fi), False
+            elif isinstance(o, Unknown):
+                self._taint(o, st)
+            return
+
+    def _for(self, st, env, rets):
+        it = self.ev(st.iter, env)
+        if isinstance(it, Tup):
+            # a display of known length: unrolled
+            for x in it.items:
+                if not self._bind_target(st.target, x, env, st):
+                    return self._opaque_block(st, env, rets, "loop")
+                self.loops.append((None, len(self.conds), False))
+                try:
+                    self.run(st.body, env, rets)
+                finally:
+                    self.loops.pop()
+            return True
+        if not isinstance(it, Seq) or it.empty:
+            if isinstance(it, Seq):
+                return True if not st.orelse else self.run(st.orelse, env, rets)
+            if isinstance(it, Unknown) or it.tracked:
+                u = it if isinstance(it, Unknown) else self._unk("loop over %r" % (it,), st)
+                self._bind_target(st.target, u, env, st)
+            else:
+                self._bind_target(st.target, OPAQUE, env, st)
+            self.loops.append((None, len(self.conds), False))
+            try:
+                self.run(st.body, env, rets)
+            finally:
+                self.loops.pop()
+            return True
+        if any(l[0] is not None and l[0].src == it.src for l in self.loops):
+            return self._opaque_block(st, env, rets, "nested loop over the same collection")
+        if not self._bind_target(st.target, it.elem, env, st):
+            return self._opaque_block(st, env, rets, "loop target")
+        assigned = {n.id for s in st.body for n in ast.walk(s) if isinstance(n, ast.Name) and isinstance(n.ctx, ast.Store)} | {n.id for n in ast.walk(st.target) if isinstance(n, ast.Name)}
+        # control flow this evaluator does not follow: break / return inside the loop, continue other than `if c: continue`
+        odd = False
+        for s in st.body:
+            for n in ast.walk(s):
+                if isinstance(n, (ast.Break, ast.Return)):
+                    odd = True
+        self.loops.append((it, len(self.conds), odd))
+        nret = len(rets)
+        try:
+            self.run(st.body, env, rets, loop_body=True)
+        finally:
+            self.loops.pop()
+        if len(rets) > nret:
+            rets[nret:] = [self._unk("return inside a loop over link data", st)]
+        for n in assigned:
+            v = env.get(n)
+            if isinstance(v, _LV) and v.tracked:
+                env[n] = self._unk("value of the last iteration of a loop over link data", st)
+        if st.orelse:
+            self.run(st.orelse, env, rets)
+        return True
+
+    # ---- entry points -----------------------------------------------------------------------
+    def result_of(self, fi, pos=None):
+        """abstract result of calling fi (parameters opaque unless given)"""
+        self.depth = 0
+        n = len([x for x in fi.node.args.posonlyargs + fi.node.args.args])
+        return self.call_function(fi, list(pos) if pos is not None else [OPAQUE] * n, {})
+
+
+def _always_raises(stmts):
+    """every way through the statement list ends in `raise`"""
+    if not stmts:
+        return False
+    last = stmts[-1]
+    if isinstance(last, ast.Raise):
+        return True
+    if isinstance(last, ast.If):
+        return bool(last.orelse) and _always_raises(last.body) and _always_raises(last.orelse)
+    return False
